@@ -391,10 +391,10 @@ func c07Keys(c *Ctx, b *boardModel) bool {
 
 	// stores in the constructor
 	type asg struct {
-		ranges [][2]int64
+		ranges   [][2]int64
 		fromRand bool
-		guards []int64
-		pos    token.Pos
+		guards   []int64
+		pos      token.Pos
 	}
 	found := map[string]*asg{}
 	var seedOK bool
